@@ -124,6 +124,15 @@ def run(chk):
     h = gen_history(rng, thorough)
     if distinct_step_values(h):
       hs.append(h)
+  # overwriting the existing latest step, dying at every crash point of that save: legacy back-end, on the tensorflow-style and on the native io shim
+  for native in (True, False):
+    for keep in (1, 2):
+      for k in range(0, 8):
+        hs.append({'prefix': 'checkpoint_', 'orbax': False, 'async': False, 'overlap': False, 'native_io': native, 'multiprocess': False,
+                   'saves': [{'step': 1, 'payload': 11, 'keep': keep, 'overwrite': False, 'every': None, 'crash': None},
+                             {'step': 2, 'payload': 12, 'keep': keep, 'overwrite': False, 'every': None, 'crash': None},
+                             {'step': 2, 'payload': 13, 'keep': keep, 'overwrite': True, 'every': None, 'crash': k},
+                             {'step': 3, 'payload': 14, 'keep': keep, 'overwrite': False, 'every': None, 'crash': None}]})
   if thorough:
     # every crash point of every save of a subset of histories
     extra = []
@@ -168,6 +177,9 @@ def run(chk):
       # ---- oracles on the implementation alone
       if not f14 or not was_crash:
         lat = api['latest']
+        if lat is None and was_crash and prev_latest is not None and not any(in_f14_region(h, j) and o['ok'][j]['outcome'] == 'crash' for j in range(i)):
+          chk.violation('oracle', 'after a crash inside save_checkpoint no checkpoint is left (latest_checkpoint is None) although step %s was the latest before the call' % prev_latest,
+                        {'history': h, 'save_index': i, 'api': api, 'snapshot': r['snapshot'], 'ops': r['ops']})
         if lat is not None:
           latv = Fraction(lat)
           candidates = {prev_latest, Fraction(step_repr(sv['step']))} if was_crash else None
@@ -175,7 +187,7 @@ def run(chk):
             if not (f14 or any(in_f14_region(h, j) and o['ok'][j]['outcome'] == 'crash' for j in range(i))):
               chk.violation('oracle', 'after %s the latest checkpoint cannot be restored (partial or temporary file listed)' % ('a crash' if was_crash else 'a save'),
                             {'history': h, 'save_index': i, 'api': api, 'snapshot': r['snapshot']})
-          if was_crash and candidates is not None and latv not in candidates and not sv['overwrite']:
+          if was_crash and candidates is not None and latv not in candidates and not (sv['overwrite'] and prev_latest is not None and Fraction(step_repr(sv['step'])) < prev_latest):
             chk.violation('oracle', 'after a crash the latest checkpoint is neither the previous latest nor the new one', {'history': h, 'save_index': i, 'api': api})
       if not h['orbax'] and r.get('settled') and r.get('trees_ok') is False:
         chk.violation('oracle', 'a checkpoint in the directory does not restore to the tree that was saved (an empty sub-tree or a key is missing)',
